@@ -5,7 +5,7 @@ import os, json, subprocess, glob, re, sys
 ROOT = os.path.dirname(os.path.dirname(os.path.abspath(__file__)))
 res = []
 # fixes that were corrected by a later fix on the same lines: the later one is reversed first
-SUPERSEDED = {"3a6cdc6": ["e7d7ff7"]}
+SUPERSEDED = {"3a6cdc6": ["e7d7ff7"], "90893cc": ["0f81d1f"]}
 def run(patch, props, rev=False):
     first = []
     for later in SUPERSEDED.get(os.path.basename(patch).split(".")[0], []) if rev else []:
